@@ -631,6 +631,61 @@ func RunRapid(c *core.Ctx) {
 				}
 			})
 		}
+		// setFields says "nothing was generated" (callers then clear the field / drop the element) for exactly two reasons:
+		// the depth limit, and genAny having no type to draw from. Every other return reports success.
+		if f := byName["setFields"]; f != nil {
+			dp := depthParam(f)
+			nRet := 0
+			var bad []string
+			var resolve func(v ssa.Value, b *ssa.BasicBlock, seen map[ssa.Value]bool) // classifies what a return may hand back
+			resolve = func(v ssa.Value, b *ssa.BasicBlock, seen map[ssa.Value]bool) {
+				if seen[v] {
+					return
+				}
+				seen[v] = true
+				switch t := v.(type) {
+				case *ssa.Const:
+					if t.Value != nil && t.Value.Kind() == constant.Bool {
+						if constant.BoolVal(t.Value) {
+							return
+						}
+						// false: only on the true edge of the entry test depth > limit
+						okFalse := false
+						if dp != nil && len(f.Blocks) > 0 {
+							if iff, ok := f.Blocks[0].Instrs[len(f.Blocks[0].Instrs)-1].(*ssa.If); ok {
+								if bo, ok := iff.Cond.(*ssa.BinOp); ok && bo.X == ssa.Value(dp) && (bo.Op == token.GTR || bo.Op == token.GEQ) {
+									okFalse = edgeDom(iff, 0, b)
+								}
+							}
+						}
+						if !okFalse {
+							bad = append(bad, "false outside the depth-limit test")
+						}
+						return
+					}
+				case *ssa.Call:
+					if cal := t.Call.StaticCallee(); cal != nil && cal == byName["genAny"] {
+						return
+					}
+				case *ssa.Phi:
+					for i, e := range t.Edges {
+						resolve(e, t.Block().Preds[i], seen)
+					}
+					return
+				}
+				bad = append(bad, v.String())
+			}
+			allInstrs(f, func(b *ssa.BasicBlock, in ssa.Instruction) {
+				r, ok := in.(*ssa.Return)
+				if !ok || len(r.Results) != 1 {
+					return
+				}
+				nRet++
+				resolve(r.Results[0], b, map[ssa.Value]bool{})
+			})
+			c.Check(len(bad) == 0 && nRet > 0, "RAPID.any", "rapidproto.setFields result", "reports failure only beyond the depth limit or when genAny does; success otherwise",
+				"setFields reports that nothing was generated for another reason (the caller then clears the field or drops the list element, e.g. for a message type without fields): "+strings.Join(bad, "; "), pos(f.Pos()), src)
+		}
 		// Truncate after a failed element
 		if f := byName["setFieldValue"]; f != nil {
 			nTr := 0
